@@ -658,6 +658,16 @@ class SymInt:
 _EXP = None
 
 
+_LOGU = None
+
+
+def _logu_fn():
+    global _LOGU
+    if _LOGU is None:
+        _LOGU = z3.Function('LogU', z3.RealSort(), z3.RealSort())
+    return _LOGU
+
+
 def _exp_fn():
     global _EXP
     if _EXP is None:
@@ -700,6 +710,26 @@ class LogVal:
 
     def exp(self):
         return self.p * sym_exp(self.t)
+
+    def to_real(self):
+        """log(p) + t as a real number: log(p) is an uninterpreted value LogU(p) tied to Exp by Exp(LogU(p)) = p"""
+        zp = toz(self.p)
+        LU = _logu_fn()
+        lt = LU(z3.simplify(zp))
+        if CUR is not None:
+            seen = CUR.__dict__.setdefault('logu_args', [])
+            if not any(lt.eq(a) for a in seen):
+                seen.append(lt)
+                CUR.solver.add(_exp_fn()(lt) == zp)
+                CUR.model = None
+        return SymReal(lt) + self.t
+
+    def __mul__(self, o):
+        return self.to_real() * o
+    __rmul__ = __mul__
+
+    def __truediv__(self, o):
+        return self.to_real() / o
 
     def _cmp(self, o, op):
         # compare log p1 + t1 ? log p2 + t2 only when t's are equal terms or o is -inf
